@@ -100,6 +100,7 @@ def submodel(base: dict, methods: List[str]) -> dict:
 
 
 ODD_DIR_NAMES = ["", "out[v2]", "out dir", "", "o*t", "caf\u00e9-\u51fa\u529b", "", "out{a,b}", "x?y", "", "%TEMP%$HOME"]
+HARNESS_VARIANTS = ["blank-after-markers", "no-markers", "no-start-marker", "no-end-marker", "markers-swapped", "crlf", "blank-lines-at-end", "no-final-newline"]
 TOOL_CONFIGS = [
     ("rustfmt.toml", "hard_tabs = true\nmax_width = 60\n"),
     (".rustfmt.toml", "max_width = 40\ntab_spaces = 2\n"),
@@ -192,17 +193,34 @@ class Pool:
 
 def make_machine(plugin: str, pool: Pool, ctx: Ctx, stats: collections.Counter, refs: Dict[str, Tuple[int, Dict[str, str]]]):
     class GenMachine(RuleBasedStateMachine):
-        def __init__(self):
+        def __init__(self, shape_override: Optional[str] = None):
             super().__init__()
             self.base_dir = gen.scratch(f"lspverif-c16-{plugin}-")
             # the name of the output directory is not part of the input either: brackets, blanks, wildcards, non-ASCII
             name = ODD_DIR_NAMES[(len(refs) + stats["runs"]) % len(ODD_DIR_NAMES)] if stats["machines"] else "out[v2] caf\u00e9"
             stats["machines"] += 1   # (the first machine of a worker is the one of the scripted history, when there is one)
+            # ... nor is what the directory looked like before the first run: every fourth machine writes into a directory
+            # called like the plugin and names it relative to its parent (`-o rust`), every fourth finds the package
+            # directory already there, every fourth the output of another plugin
+            shape = shape_override if shape_override is not None else ["plain", "plugin-named", "package-dir-exists", "other-plugin-first"][stats["machines"] % 4]
+            self.shape = shape
+            if shape == "plugin-named":
+                name = plugin
             self.out = os.path.join(self.base_dir, name) if name else self.base_dir
             os.makedirs(self.out, exist_ok=True)
             self.history: List[Any] = []
             self.last_key: Optional[str] = None
             self.dirty = False
+            stats["shape_" + shape] += 1
+            if shape == "package-dir-exists":
+                os.makedirs(os.path.join(self.out, "lsprotocol"), exist_ok=True)
+                self.history.append(["precreated", "lsprotocol/"])
+            elif shape == "other-plugin-first":
+                other = "rust" if plugin == "python" else "python"
+                r0 = gen.run_generator(other, self.out, models=pool.lists["small_a"], hashseed=0, timeout=1800)
+                if r0.returncode != 0:
+                    raise HarnessError(f"preparing a directory with the {other} plugin failed: {(r0.stderr or r0.stdout)[-300:]}")
+                self.history.append(["other-plugin", other, "small_a"])
 
         def teardown(self):
             shutil.rmtree(self.base_dir, ignore_errors=True)
@@ -224,6 +242,8 @@ def make_machine(plugin: str, pool: Pool, ctx: Ctx, stats: collections.Counter, 
 
         def do_run(self, key: str, hashseed: int, spelling: str = "default") -> None:
             ref_seed, ref = self.reference(key)
+            if self.shape == "plugin-named" and spelling == "default":
+                spelling = "relative"
             r = gen.run_generator(plugin, self.out, models=pool.lists[key], hashseed=hashseed, timeout=1800, spelling=spelling)
             stats["runs"] += 1
             stats[f"runs_spelling_{spelling}"] += 1
@@ -274,6 +294,71 @@ def make_machine(plugin: str, pool: Pool, ctx: Ctx, stats: collections.Counter, 
         def damage_and_rerun(self, kind, tag, hs):
             self._plant(kind, tag)
             self.do_run(self.last_key, hs)
+
+        @precondition(lambda self: plugin == "rust" and self.last_key is not None)
+        @rule(variant=st.sampled_from(HARNESS_VARIANTS), hs=st.integers(0, 2**32 - 1))
+        def harness_variant(self, variant, hs):
+            self.harness_idempotence(variant, hs)
+
+        def harness_idempotence(self, variant: str, hs: int) -> None:
+            """the test harness the rust plugin edits in place, as somebody's editor or merge left it: whatever the first run
+            makes of it, the second run has to leave it at that (and the library does not depend on it at all)."""
+            pristine = os.path.join(repo_path("tests", "rust"), "src", "main.rs")
+            target = os.path.join(self.out, "_tests", "src", "main.rs")
+            if not (os.path.exists(pristine) and os.path.exists(target)):
+                return
+            with open(pristine, encoding="utf-8") as f:
+                text = f.read()
+            lines = text.split("\n")
+            S, E = "GENERATED_TEST_CODE:start", "GENERATED_TEST_CODE:end"
+            if variant == "blank-after-markers":
+                lines = [ln + "  " if ln.endswith((S, E)) else ln for ln in lines]
+            elif variant == "no-markers":
+                lines = [ln for ln in lines if not ln.endswith((S, E))]
+            elif variant == "no-start-marker":
+                lines = [ln for ln in lines if not ln.endswith(S)]
+            elif variant == "no-end-marker":
+                lines = [ln for ln in lines if not ln.endswith(E)]
+            elif variant == "markers-swapped":
+                lines = [ln.replace(S, "\0").replace(E, S).replace("\0", E) for ln in lines]
+            elif variant == "crlf":
+                lines = [ln + "\r" for ln in lines[:-1]] + lines[-1:]
+            elif variant == "blank-lines-at-end":
+                lines = lines + ["", ""]
+            elif variant == "no-final-newline":
+                while lines and lines[-1] == "":
+                    lines.pop()
+            with open(target, "w", encoding="utf-8", newline="") as f:
+                f.write("\n".join(lines))
+            self.history.append(["harness", variant])
+            stats["harness_variants"] += 1
+            key = self.last_key
+            _, ref = self.reference(key)
+            seen = []
+            for i in range(3):
+                r = gen.run_generator(plugin, self.out, models=pool.lists[key], hashseed=hs, timeout=1800)
+                stats["runs"] += 1
+                stats["nontrivial_runs"] += 1
+                self.history.append(["run", key, hs])
+                case = {"plugin": plugin, "history": list(self.history)}
+                if r.returncode != 0:
+                    if "<plugin failed>" not in ref:
+                        ctx.finding(("run-failed", plugin, "harness:" + variant), (r.stderr or r.stdout)[-300:], case)
+                    break
+                got = owned_digest(plugin, self.out)
+                lib = os.path.join("lsprotocol", "src", "lib.rs")
+                if got.get(lib) != ref.get(lib):
+                    ctx.finding(("bytes-differ", plugin, "harness:" + variant), f"lib.rs differs from the fresh-directory reference; history {self.history}", case)
+                seen.append(got.get(os.path.join("_tests", "src", "main.rs")))
+                if i and seen[-1] != seen[-2]:
+                    with open(target, "rb") as f:
+                        size = len(f.read())
+                    ctx.finding(("harness-not-a-fixed-point", plugin, variant),
+                                f"run {i + 1} on the same model rewrites the test harness that run {i} left ({size} bytes now); history {self.history}", case)
+                    break
+            # back to the project's harness for what follows
+            shutil.copyfile(pristine, target)
+            self.dirty = True
 
         def _plant(self, kind, tag):
             self.history.append(["plant", kind, tag])
@@ -400,9 +485,24 @@ def _work(args) -> dict:
                 mach._plant("owned-pattern", 5)
                 mach.do_run("small_a+ext", 3)
                 mach.do_run(a, 987654321)
+                if plugin == "rust":
+                    for variant in HARNESS_VARIANTS:
+                        mach.harness_idempotence(variant, 1)
+                    mach.do_run(a, 1)
                 stats["scripted_histories"] += 1
             finally:
                 mach.teardown()
+            # what the output directory is called and what it held before the first run
+            for shape in ("plugin-named", "package-dir-exists", "other-plugin-first"):
+                mach = M(shape)
+                try:
+                    mach.do_run(a, 0)
+                    mach.do_run(a, 1)
+                    mach.do_run(b, 2, "relative")
+                    mach.do_run(a, 3)
+                    stats["scripted_histories"] += 1
+                finally:
+                    mach.teardown()
         if shard == 1:
             # in-process history: the same model generated before and after other models within one process
             from .c19 import in_child
